@@ -7,7 +7,11 @@ RULE = ("cases cycle through all 21 (ExchangeId, SubKind) arms of DynamicStreams
         "the calendar year), then 2-6 (thorough 2-10) messages: 55 % for a subscribed instrument's venue symbol, 15 % for an unsubscribed "
         "instrument, 30 % a mutation of a subscribed symbol (lower-cased, suffix added, last char dropped, separators removed/swapped, first "
         "char changed); multi-trade batches of 0-3 trades, Bitfinex heartbeats and channel ids confirmed in shuffled order (some unconfirmed, "
-        "some for unsubscribed symbols). Real WebSocketSubMapper::map, real serde types on synthesised JSON, real Transformer::transform. "
+        "some for unsubscribed symbols). A third of the cases (every third round over the 21 pairs) subscribe through the engine's indexed-stream "
+        "instrument type MarketInstrumentData<usize> (the third Identifier<Market> impl of every connector: name_exchange VERBATIM; `@<name>:<kind>` tokens): "
+        "the name is the venue's symbol for the underlying (70 %), that symbol in the wrong case (15 %) or ANOTHER venue's symbol for the same underlying (15 %); "
+        "messages then name the venue's symbol or the subscribed name. Real WebSocketSubMapper::map (over Subscription<E, Keyed<usize, MarketDataInstrument>, K> "
+        "or Subscription<E, MarketInstrumentData<usize>, K>), real serde types on synthesised JSON, real Transformer::transform. "
         "A case is distinct by the SHA-1 of its op lines and non-trivial when the implementation's trace shows at least two different "
         "observation blocks")
 ASSUMPTIONS = [
@@ -23,7 +27,11 @@ ASSUMPTIONS = [
     "Binance L2: each update is given to a freshly initialised transformer (snapshot sequence 100) as a valid first update, with at most one "
     "level per side; sequencing and book sorting are C06/C05",
     "prices/amounts are multiples of 1/8 (exact in f64 and Decimal; f64 parsing is not modelled); Kraken times are multiples of 125 ms "
-    "(its seconds-as-f64 timestamps are then exact); the sign of PublicTrade.amount is not constrained by the spec (see LEVEL_NOTE)",
+    "(its seconds-as-f64 timestamps are then exact); the sign of PublicTrade.amount is not constrained by the spec (see LEVEL_NOTE): it is an "
+    "observation (`amt`, `sgn`) compared between code and model only; theorem amount_sign_convention states the convention per connector",
+    "verbatim path (MarketInstrumentData): the supplied name_exchange IS the venue symbol as far as the property is concerned (the user supplies it; nothing "
+    "normalises it: lowercase_verbatim_name_is_rejected); a `sub` line is all-formatted or all-verbatim (one Rust subscription list has one instrument type; "
+    "the theorems cover arbitrary mixtures)",
 ]
 SOURCE_FILES = [
     "barter-data/src/subscriber/mapper.rs", "barter-data/src/transformer/stateless.rs", "barter-data/src/exchange/subscription.rs",
@@ -41,7 +49,10 @@ SOURCE_FILES = [
     "barter-data/src/exchange/bitmex/trade.rs", "barter-data/src/exchange/bitmex/message.rs", "barter-data/src/exchange/bitmex/market.rs",
     "barter-data/src/exchange/bitfinex/validator.rs", "barter-data/src/exchange/bitfinex/message.rs",
     "barter-data/src/exchange/bitfinex/trade.rs", "barter-data/src/exchange/bitfinex/market.rs",
-    "barter-instrument/src/asset/name.rs",
+    "barter-instrument/src/asset/name.rs", "barter-instrument/src/instrument/name.rs",
+    "barter-data/src/instrument.rs", "barter-data/src/streams/builder/dynamic/indexed.rs",
+    "barter-data/src/exchange/bitfinex/channel.rs", "barter-data/src/exchange/bitmex/channel.rs", "barter-data/src/exchange/bybit/channel.rs",
+    "barter-data/src/exchange/coinbase/channel.rs", "barter-data/src/exchange/kraken/channel.rs", "barter-data/src/exchange/okx/channel.rs",
 ]
 
 
@@ -56,7 +67,8 @@ def signature(ops, k, key, impl_line, spec_line):
         cls = "unsubscribed-market"
     elif "unidentifiable" in impl_line or impl_line.startswith("nev 1"):
         cls = "subscribed-market-rejected"
-    return f"clause={clause} connector={exch} kind={kind} input={cls}"
+    rep = " rep=verbatim" if any(t.startswith("@") for t in sub[3:]) else ""
+    return f"clause={clause} connector={exch} kind={kind} input={cls}{rep}"
 
 
 CLAIM = True
@@ -69,7 +81,13 @@ LEVEL_TEXT = ("Proof. Lean theorems (lean/BarterModel/Props/C13.lean) over the e
               "the k-th instrument's market => exactly the events of key k), events_key_exchange + trade/l1/l2/liq_fields_as_stated (key, exchange id, price, "
               "quantity, side, time copied), rejected + rejected_never_event (unsubscribed (channel, market) => Unidentifiable(id), never an event), "
               "sep_injective(_channels), refines_spec (transform = the property's attribution rule stated on venue symbols only), and for Bitfinex "
-              "bitfinex_attributed / bitfinex_rejected / bitfinex_heartbeat / bitfinex_refines_spec over arbitrary confirmation sequences. All full strength; "
+              "bitfinex_attributed / bitfinex_rejected / bitfinex_heartbeat / bitfinex_refines_spec over arbitrary confirmation sequences. BOTH instrument representations "
+              "(InstRep = formatted-from-underlying | verbatim name_exchange, the MarketInstrumentData impl the engine's indexed stream uses): the model over the sum (marketR, "
+              "subscriptionIdR, mapOfR, venueSymbolR, specVerdictR) restricted to formatted instruments is the old one (formatted_is_the_old_path); market_is_venue_symbol_verbatim "
+              "(identity), market_is_venue_symbol_rep, payload_id_agrees_rep, attributed_rep, rejected_rep, rejected_never_event_rep, refines_spec_rep, bitfinex_*_rep over lists of "
+              "either representation (any mixture); verbatim_agrees_with_formatted (names = venue symbols of the underlyings => same ids, same map, same transform); witnesses "
+              "lowercase_verbatim_name_is_rejected / other_venue_verbatim_name_is_rejected (nothing normalises a verbatim name). amount_sign_convention / events_amount_sign: per "
+              "connector which sign PublicTrade.amount carries (Bitfinex abs; Gateio futures/perpetuals/options signed; others as stated). All full strength; "
               "hypotheses: pairwise distinct ids / venue symbols, builder-accepted instrument kinds (refinement only), non-empty batch where the id is read off "
               "the first trade, '|' not in a payload-supplied channel, Bitfinex confirmations with distinct symbols and distinct channel ids.")
 LEVEL_NOTE = ("Trusted: Lean kernel; axioms propext/Classical.choice/Quot.sound only; the hand-written model (tied by sampled correspondence: 420 quick / 10.5k "
@@ -77,6 +95,7 @@ LEVEL_NOTE = ("Trusted: Lean kernel; axioms propext/Classical.choice/Quot.sound 
               "table of the spec (from the repository's fixtures and doc comments); harness and driver. serde glue is exercised, not proved. Bitfinex's "
               "channel-id re-keying is driven by constructing the post-validation instrument map directly (same two statements as the validator's Subscribed "
               "arm, on a really deserialised BitfinexPlatformEvent) - no loop-back websocket. Binance L2 only as a first update on a fresh transformer. "
-              "ASCII names only. Not constrained by the spec (reported): Gateio futures/perpetual/option sells carry a negative PublicTrade.amount while "
+              "ASCII names only. Not constrained by the spec (reported; observed as `amt` / `sgn`, model mirrors the code, theorem amount_sign_convention): Gateio "
+              "futures/perpetual/option sells carry a negative PublicTrade.amount while "
               "every other connector reports the absolute quantity; batches that mix symbols are attributed wholly to the first trade's instrument.")
 SUBCHECKS = ["C13S", "C13Q", "C13V"]
